@@ -141,6 +141,30 @@ def witness_search(prop, unit, fn, label):
     return dict(found=False, tried=tried)
 
 
+def unit_witness(unit):
+    """unit-level witnesses (witness.json entries with a "unit" key): bounded
+    differential tests of the real code, used when the unit cannot be composed
+    or verified after an edit (lost anchor, rejected construct) and as fallback
+    for obligations without a specific witness"""
+    rules = load_json(os.path.join(VERIF, "witness.json"), [])
+    tried = []
+    for rule in rules:
+        if rule.get("unit") != unit:
+            continue
+        for cmd in rule["cmds"]:
+            try:
+                p = subprocess.run(cmd, shell=True, cwd=VERIF, capture_output=True, text=True, timeout=rule.get("timeout", 1200))
+                ent = dict(cmd=cmd, rc=p.returncode, stdout=p.stdout[-4000:], stderr=p.stderr[-1000:])
+            except Exception as e:
+                ent = dict(cmd=cmd, rc=2, error=str(e))
+            tried.append(ent)
+            if ent.get("rc") == 1:
+                return dict(found=True, cmd=cmd, failing_input=ent["stdout"].strip(), tried=tried)
+    if not tried:
+        return None
+    return dict(found=False, tried=tried)
+
+
 def main(argv):
     prop = argv[0]
     tier = os.environ.get("VERIF_TIER", "quick")
@@ -199,9 +223,16 @@ def main(argv):
 
     undecided = []
     all_obl = []
+    witness_violations = []
     for u, r in results.items():
         if r.status != "ok":
-            undecided.append("%s: %s" % (u, r.reason))
+            w = None
+            if (r.reason or "").startswith(("extraction:", "verifier rejected")) and not update:
+                w = unit_witness(u)
+            if w is not None and w.get("found"):
+                witness_violations.append((u, r.reason, w))
+            else:
+                undecided.append("%s: %s" % (u, r.reason))
         for o in r.obligations:
             if prop in (o["props"] or []):
                 o = dict(o)
@@ -264,6 +295,10 @@ def main(argv):
         out_lines.append("KNOWN-FINDING: property=%s %s [%s] %s" % (prop, o["fn"], o["label"], k.get("what", "")))
     for o in violations:
         w = witness_search(prop, o["unit"], o["fn"], o["label"])
+        if w is None or not w.get("found"):
+            w2 = unit_witness(o["unit"])
+            if w2 is not None and (w2.get("found") or w is None):
+                w = w2
         slug = re.sub(r"[^A-Za-z0-9_]+", "_", "%s_%s_%s" % (prop, o["fn"].split("::", 1)[-1], o["label"]))[:150]
         rpath = os.path.join(VERIF, "replay_out", slug + ".json")
         r = results[o["unit"]]
@@ -278,6 +313,14 @@ def main(argv):
         out_lines.append("VIOLATION property=%s replay=%s obligation=%s::[%s]%s" % (prop, rpath, o["fn"], o["label"], tail)
                          if not tail else
                          "VIOLATION property=%s replay=%s obligation=%s::[%s] no-failing-input-found" % (prop, rpath, o["fn"], o["label"]))
+        rc = 1
+    for u, reason, w in witness_violations:
+        rpath = os.path.join(VERIF, "replay_out", "%s_%s_witness.json" % (prop, u))
+        with open(rpath, "w") as fh:
+            json.dump(dict(property=prop, unit=u, obligation="witness:%s" % u,
+                           note="the unit's contracts could not be re-established on this tree (%s); a bounded differential test of the REAL compiled code against the executable transcription of the unit's top-level postconditions found a failing input" % reason,
+                           witness=w), fh, indent=1)
+        out_lines.append("VIOLATION property=%s replay=%s obligation=witness:%s (contracts not re-established: %s)" % (prop, rpath, u, (reason or "")[:160].replace("\n", " ")))
         rc = 1
     if rc == 0 and undecided:
         rc = 2
@@ -326,7 +369,7 @@ def main(argv):
         ),
         assumptions=cfgp.get("assumptions", []) + ["every entry of coverage.trusted_base is an assumed contract"],
         wall_s=round(time.time() - t0, 2),
-        violations=len(violations),
+        violations=len(violations) + len(witness_violations),
     )
     os.makedirs(os.path.join(VERIF, "evidence"), exist_ok=True)
     with open(os.path.join(VERIF, "evidence", prop + ".json"), "w") as fh:
